@@ -7,12 +7,14 @@ package main
 import (
 	"errors"
 	"fmt"
+	"io"
 	"os"
 	"strings"
 	"time"
 
 	"github.com/containerd/nri/pkg/api"
 	"github.com/containerd/nri/pkg/stub"
+	"github.com/sirupsen/logrus"
 	"google.golang.org/protobuf/proto"
 
 	"nriverif/lib/full"
@@ -56,10 +58,27 @@ func eqLists(a, b []*api.ContainerUpdate) bool {
 func main() {
 	f := rep.ParseFlags()
 	res := &rep.Result{Property: f.Prop, Engine: "unsol", Exhaustive: true, Bounds: map[string]any{},
-		Rule:        "every update list of length 0-3 over 5 update shapes (memory, CPU, hugepages+unified, pids+classes, empty) with ignore-failure on every subset of entries (lists of length <= 2 exhaustively, length 3 for a rotating selection) x callback results {nil, every subset of the list as failed list, error}; distinct = (list, callback result) pairs, all non-trivial",
+		Rule:        "every update list of length 0-3 over 5 update shapes (memory, CPU, hugepages+unified, pids+classes, empty) with ignore-failure on every subset of entries (lists of length <= 2 exhaustively, length 3 for a rotating selection) x callback results {every subset of the list as failed list} x {no error, error}; distinct = (list, callback result) pairs, all non-trivial",
 		Assumptions: []string{"full stack in one process over a real unix socket; schedules underneath are free-running"}}
 	if f.Replay != "" {
 		fmt.Println("replay: re-running the deterministic enumeration")
+	}
+	if f.Engine == "abandon" {
+		logrus.SetOutput(io.Discard)
+		engineAbandon(f, res)
+		if f.Replay != "" {
+			for _, x := range res.Findings {
+				fmt.Printf("FINDING %s: %s\n", x.Signature, x.Message)
+			}
+			if len(res.Findings) > 0 {
+				fmt.Printf("VIOLATION property=%s replay=%s\n", f.Prop, f.Replay)
+				os.Exit(1)
+			}
+			fmt.Println("no violation")
+			return
+		}
+		res.Write(f)
+		return
 	}
 	fail := func(sig, m string, a ...any) {
 		res.Add(f.Prop+"|unsol|"+sig, fmt.Sprintf(m, a...), map[string]any{"signature": sig})
@@ -134,19 +153,18 @@ func main() {
 	n := 0
 	for _, l := range lists {
 		// callback results: nil, every subset as failed list, an error
-		for sub := 0; sub < 1<<len(l)+1; sub++ {
+		for sub := 0; sub < 2<<len(l); sub++ {
 			cbFailed, cbErr = nil, nil
 			var desc string
-			if sub == 1<<len(l) {
-				cbErr = errors.New("runtime refuses the update 4711")
-				desc = "error"
-			} else {
-				for i := range l {
-					if sub>>uint(i)&1 == 1 {
-						cbFailed = append(cbFailed, l[i])
-					}
+			for i := range l {
+				if sub>>uint(i)&1 == 1 {
+					cbFailed = append(cbFailed, l[i])
 				}
-				desc = fmt.Sprintf("failed=%d/%d", len(cbFailed), len(l))
+			}
+			desc = fmt.Sprintf("failed=%d/%d", len(cbFailed), len(l))
+			if sub>>uint(len(l))&1 == 1 {
+				cbErr = errors.New("runtime refuses the update 4711")
+				desc += "+error"
 			}
 			seen = nil
 			failed, err := pl.Stub.UpdateContainers(l)
